@@ -349,25 +349,24 @@ func ReadFromTTML(i io.Reader) (o *Subtitles, err error) {
 	o.Metadata = ttml.metadata()
 
 	// Loop through styles
-	var parentStyles = make(map[string]*Style)
 	for _, ts := range ttml.Styles {
 		var s = &Style{
 			ID:          ts.ID,
 			InlineStyle: ts.TTMLInStyleAttributes.styleAttributes(),
 		}
 		o.Styles[s.ID] = s
-		if len(ts.Style) > 0 {
-			parentStyles[ts.Style] = s
-		}
 	}
 
-	// Take care of parent styles
-	for id, s := range parentStyles {
-		if _, ok := o.Styles[id]; !ok {
-			err = fmt.Errorf("astisub: Style %s requested by style %s doesn't exist", id, s.ID)
+	// Take care of parent styles (several styles may share the same parent)
+	for _, ts := range ttml.Styles {
+		if len(ts.Style) == 0 {
+			continue
+		}
+		if _, ok := o.Styles[ts.Style]; !ok {
+			err = fmt.Errorf("astisub: Style %s requested by style %s doesn't exist", ts.Style, ts.ID)
 			return
 		}
-		s.Style = o.Styles[id]
+		o.Styles[ts.ID].Style = o.Styles[ts.Style]
 	}
 
 	// Loop through regions
